@@ -250,28 +250,38 @@ func init() {
 			rep.Capped("pair phase cut by deadline")
 		}
 		rep.Sample(map[string]any{"phase": "pair", "filters": len(pf), "kind_combinations": 15})
-		// phase C: subscribe/unsubscribe sequences on one index (trim), 2 clients × colliding filters
-		cf := []string{"x", "x/#", "x/+", "x/y", "+/#", "#", "x/y/#", "+"}
+		// phase C: sequences of subscribe / unsubscribe of all three kinds plus retained set /
+		// clear on one index (node sharing, trim), followed by every topic
+		cf := []string{"x", "x/y", "x/#", "x/+", "+/#", "#"}
 		type op struct {
+			Kind   string // client | shared | inline | retain
 			Sub    bool
 			Client string
+			ID     int
 			Filter string
 		}
 		var ops []op
-		for _, cl := range []string{"c1", "c2"} {
-			for _, f := range cf {
-				ops = append(ops, op{true, cl, f}, op{false, cl, f})
-			}
+		for i, f := range cf {
+			ops = append(ops, op{"client", true, "c1", 0, f}, op{"client", false, "c1", 0, f},
+				op{"shared", true, "c1", 0, f}, op{"shared", false, "c1", 0, f},
+				op{"inline", true, "", i + 1, f}, op{"inline", false, "", i + 1, f})
+		}
+		for _, f := range []string{"x", "x/#"} {
+			ops = append(ops, op{"client", true, "c2", 0, f}, op{"client", false, "c2", 0, f})
+		}
+		for _, t := range []string{"x", "x/y"} {
+			ops = append(ops, op{"retain", true, "", 0, t}, op{"retain", false, "", 0, t})
 		}
 		seqLen := 3
+		ctop := c01Topics(3)
 		if !c.Quick() {
 			seqLen = 4
+			ctop = append(c01Topics(2), "x/y/x", "x/y/y", "x/x/y", "$s/x/y")
 		}
 		total := 1
 		for i := 0; i < seqLen; i++ {
 			total *= len(ops)
 		}
-		ctop := c01Topics(3)
 		done = explore.ParallelRange(total, c.Workers, c.Expired, func(i int) {
 			x := mqtt.NewTopicsIndex()
 			live := map[string]c01Sub{}
@@ -282,12 +292,23 @@ func init() {
 				n /= len(ops)
 			}
 			for _, o := range seq {
-				if o.Sub {
-					x.Subscribe(o.Client, packets.Subscription{Filter: o.Filter, Qos: 1})
-					live[o.Client+"|"+o.Filter] = c01Sub{Kind: "client", Client: o.Client, Filter: o.Filter}
-				} else {
-					x.Unsubscribe(o.Filter, o.Client)
-					delete(live, o.Client+"|"+o.Filter)
+				s := c01Sub{Kind: o.Kind, Client: o.Client, ID: o.ID, Filter: o.Filter}
+				switch {
+				case o.Kind == "retain":
+					payload := "p"
+					if !o.Sub {
+						payload = ""
+					}
+					c02Retain(x, o.Filter, payload)
+				case o.Sub:
+					s.apply(x)
+					live[s.tag()+"|"+o.Filter] = s
+				case o.Kind == "inline":
+					x.InlineUnsubscribe(o.ID, o.Filter)
+					delete(live, s.tag()+"|"+o.Filter)
+				default:
+					x.Unsubscribe(s.full(), o.Client)
+					delete(live, s.tag()+"|"+o.Filter)
 				}
 			}
 			var ls []c01Sub
@@ -300,7 +321,7 @@ func init() {
 		if !done {
 			rep.Capped("sequence phase cut by deadline")
 		}
-		rep.Sample(map[string]any{"phase": "sequence", "ops": len(ops), "length": seqLen, "sequences": total})
+		rep.Sample(map[string]any{"phase": "sequence", "ops": len(ops), "length": seqLen, "sequences": total, "example_op": ops[3]})
 		rep.Count("evaluations", evals)
 		rep.Count("distinct_nontrivial", nontriv)
 		rep.Set("rule", "every (subscription set, topic) pair of the declared domain is evaluated once on a fresh TopicsIndex; distinct by construction; non-trivial = at least one subscription of the set matches the topic under ref.Match")
